@@ -71,6 +71,10 @@ def nearestDec (f : Fmt) (ds : List Nat) (e : Int) : Nat :=
   else if 0 ≤ e then nearestRat f (D * 10 ^ e.toNat) 1
   else nearestRat f D (10 ^ (-e).toNat)
 
+/-- the exact rational `digits × 10^e` as numerator / denominator -/
+def decimalRat (ds : List Nat) (e : Int) : Nat × Nat :=
+  if 0 ≤ e then (ofDigits 10 ds * 10 ^ e.toNat, 1) else (ofDigits 10 ds, 10 ^ (-e).toNat)
+
 def nearest64 (ds : List Nat) (e : Int) : Nat := nearestDec binary64 ds e
 def nearest32 (ds : List Nat) (e : Int) : Nat := nearestDec binary32 ds e
 
